@@ -1,4 +1,5 @@
-// ===== shim/labeled.rs : mirror of poly-commit's LabeledPolynomial accessors (data_structures.rs; plain field getters + Deref to the polynomial) =====
+// ===== shim/labeled.rs : LabeledPolynomial as the callers see it.  The constructor / getter contracts restated here are PROVED for the real functions of
+// data_structures.rs in units/labeled_types.rs (same clauses); the Deref-to-polynomial conveniences (degree, is_zero, coeffs, evaluate) forward to shim/poly.rs =====
 pub struct LabeledPolynomial { pub label: String, pub polynomial: Poly, pub degree_bound: Option<usize>, pub hiding_bound: Option<usize> }
 impl LabeledPolynomial {
     pub fn new(label: String, polynomial: Poly, degree_bound: Option<usize>, hiding_bound: Option<usize>) -> (r: Self)
